@@ -260,6 +260,13 @@ func (f *Flooder) HandleRouteAdvertise(
 		}
 	}
 
+	// An announcement whose path already passes through us has looped back
+	// (the seen-by list does not survive a full-table replay): neither store
+	// nor forward it.
+	if containsAgent(path, f.localID) {
+		return false
+	}
+
 	// Convert protocol routes to routing entries (CIDR, domain, forward, and agent)
 	cidrEntries := make([]routing.RouteEntry, 0, len(routes))
 	domainEntries := make([]routing.DomainRouteEntry, 0)
@@ -665,12 +672,34 @@ func (f *Flooder) SendFullTable(peerID identity.AgentID) {
 
 	// Send a separate advertisement for each origin
 	for originAgent := range allOrigins {
-		seq := f.routeMgr.IncrementSequence()
-
 		cidrRoutes := byOrigin[originAgent]
 		agentPresenceRoutes := agentByOrigin[originAgent]
 		forwardOriginRoutes := forwardByOrigin[originAgent]
 		domainOriginRoutes := domainByOrigin[originAgent]
+
+		// Our own routes get a fresh sequence number from our counter. Routes
+		// learned from another origin are replayed under that origin's own
+		// sequence number (the highest one we hold): numbering them from our
+		// counter would put foreign numbers into the origin's sequence space,
+		// so that receivers ignore (or, via the seen cache, drop and do not
+		// forward) the origin's later genuine announcements.
+		var seq uint64
+		if originAgent == f.localID {
+			seq = f.routeMgr.IncrementSequence()
+		} else {
+			for _, r := range cidrRoutes {
+				seq = max(seq, r.Sequence)
+			}
+			for _, r := range agentPresenceRoutes {
+				seq = max(seq, r.Sequence)
+			}
+			for _, r := range forwardOriginRoutes {
+				seq = max(seq, r.Sequence)
+			}
+			for _, r := range domainOriginRoutes {
+				seq = max(seq, r.Sequence)
+			}
+		}
 
 		routes := make([]protocol.Route, 0, len(cidrRoutes)+len(agentPresenceRoutes)+len(forwardOriginRoutes)+len(domainOriginRoutes))
 		for _, r := range cidrRoutes {
